@@ -37,7 +37,8 @@ POOLS = [
 ]
 
 DEFAULTS = ['0', '-9.81', '"a, b"', "'c'", 'ns::P()', '{1, 2}', 'f(1, g(2))', 'V<int>()', 'x[3]',
-            'gtsam::Point3(1, 2, 3)', 'std::vector<int>{1, 2}', '1e-3', 'A::B', '"x;y"']
+            'gtsam::Point3(1, 2, 3)', 'std::vector<int>{1, 2}', '1e-3', 'A::B', '"x;y"',
+            "Symbol('(', 1)", "Symbol(')', 2)", "Join(\"(\", ')')", "B{'}', \"{\"}", "idx['[']", '"a  b\tc"', "g(\")\", '(')"]
 
 BIN_OPS = ['+', '-', '*', '/', '%', '^', '&', '|', '+=', '-=', '*=', '/=', '%=', '^=', '&=', '|=',
            '<<', '<<=', '>>', '>>=', '==', '!=', '<', '>', '<=', '>=']
@@ -156,7 +157,10 @@ def templates(P):
             [D.tparam('T')],
             [D.tparam('T', [T(c)])],
             [D.tparam('POSE', [T(c), T(P['tpl'][0], t=[T(P['ns'][0] + '::' + P['cls'][1])])]), D.tparam('U')],
-            [D.tparam('T', [T('double'), T('3')]), D.tparam('U', [T('%s::%s::%s' % (P['ns'][2], P['ns'][3], c))])]]
+            [D.tparam('T', [T('double'), T('3')]), D.tparam('U', [T('%s::%s::%s' % (P['ns'][2], P['ns'][3], c))])],
+            # same short name from two namespaces, and the same type twice: a list is kept as written
+            [D.tparam('T', [T(P['ns'][0] + '::Model'), T(P['ns'][1] + '::Model'),
+                            T(P['tpl'][0], t=[T(P['ns'][0] + '::Model')]), T(P['tpl'][0], t=[T(P['ns'][1] + '::Model')]), T(P['ns'][0] + '::Model')])]]
 
 
 def rets(P):
@@ -204,6 +208,12 @@ def decl_cases(P, thorough):
                 yield 'method', [D.cls(C, [D.method(r, P['fn'][ai % 4], al, const, tpl) for ai, al in enumerate(als)])]
             yield 'static', [D.cls(C, [D.static(r, P['fn'][ai % 4], al, tpl) for ai, al in enumerate(als)])]
         yield 'ctor', [D.cls(C, [D.ctor(C, al, tpl) for al in als])]
+    # overloads of one name declared with other members in between: per-kind source order must survive
+    I_ = T('int')
+    yield 'overload-order', [D.cls(C, [D.method(single(I_), 'add', [arg(I_, 'a')]), D.method(single(I_), 'size', [], 1),
+                                       D.method(single(I_), 'add', [arg(T('double'), 'b')]), D.static(single(I_), 'make', []),
+                                       D.static(single(I_), 'other', []), D.static(single(I_), 'make', [arg(I_, 'n')]),
+                                       D.method(single(I_), 'aaa', []), D.ctor(C, [arg(I_, 'z')]), D.ctor(C), D.method(single(I_), 'add', [])])]
     # default texts: each text in each argument position of a 3-argument function, and on variables/properties
     for di, dflt in enumerate(DEFAULTS):
         decls = []
